@@ -28,7 +28,8 @@ RULE = ("abstract devices: 0..4 extended (and IOS standard) ACLs of 1..8 entries
         "distinct non-trivial = (#acls, #groups, #bindings, two-acl-interface?, noise, indent, filter)"
         " Round 4: remarks of 88..100 characters; the public ConfigParser.acls() tapped and one parser asked repeatedly with name/type filters."
         " Round 5: interface headers with additional tokens."
-        " Rounds 6-7: names differing in letter case; group names with punctuation.")
+        " Rounds 6-7: names differing in letter case; group names with punctuation."
+        " Round 8: remark words ignore/description/statistics.")
 ASSUMPTIONS = ["every ACL section has at least one body line (whether a header-only section is 'an access list' is ambiguous; "
                "observed, not judged)", "nested group-object members raise TypeError by design and are generated only in C20",
                "'!' comment lines start in column 0 as in device output"]
